@@ -54,19 +54,38 @@ def branchOf (t : Tab) : Tab.Op → String
     else if (filterTo t.n fun i => (t.row i).x q).length > 1 then "remove:det-many" else "remove:det-one"
   | .ptrace _ _ => "ptrace"
 
+/-- the extended ops: `measx:q:o` (`measure_x`), `measy:q:o` (`measure_y`), `xmeas:q:o` (`x_measurement_gate` /
+    `Stabilizer.apply_x_measurement`); everything else is a base op -/
+def parseOpX (op : String) : Option Tab.OpX :=
+  let parts := splitChar ':' op
+  let name := parts.headD ""
+  let arg (k : Nat) : Nat := ((parts.getD (k+1) "").toNat?).getD 0
+  let argB (k : Nat) : Bool := (parts.getD (k+1) "") = "1"
+  match name with
+  | "measx" => some (.measX (arg 0) (argB 1))
+  | "measy" => some (.measY (arg 0) (argB 1))
+  | "xmeas" => some (.xMeasGate (arg 0) (argB 1))
+  | _ => (parseOp op).map .base
+
+def branchOfX (t : Tab) : Tab.OpX → String
+  | .base op => branchOf t op
+  | .measX q _ => if ((t.hGate q).pivot q).isSome then "measx:random" else "measx:det"
+  | .xMeasGate q _ => if ((t.hGate q).pivot q).isSome then "xmeas:random" else "xmeas:det"
+  | .measY q _ => if (((t.sdgGate q).hGate q).pivot q).isSome then "measy:random" else "measy:det"
+
 /-- one op of `tab.run`; ops are `name:arg:arg…` -/
 def stepOp (s : RunSt) (ops : String) : Except Err RunSt :=
-  match parseOp ops with
+  match parseOpX ops with
   | none => .error .value
   | some op =>
-    match s.t.applyOp op with
+    match s.t.applyOpX op with
     | .error e => .error e
     | .ok (t', out) =>
       .ok { t := t'.norm
             outs := match out with
               | some (o, rnd) => s.outs ++ [b01 o ++ (if rnd then "r" else "d")]
               | none => s.outs
-            brs := s.brs ++ [branchOf s.t op] }
+            brs := s.brs ++ [branchOfX s.t op] }
 
 def run (a : Args) : String :=
   let t := tabOf a
@@ -86,6 +105,25 @@ def tensor (a : Args) : String :=
   let t := (Tab.tensor2 t1 t2).norm
   s!"ok {showTab t} valid={b01 t.isSymplectic}"
 
+/-- `tensor([f0, f1, …])` with `k` factors (args prefixed `f0`, `f1`, …) -/
+def tensorN (a : Args) : String :=
+  let k := getNat a "k"
+  let fs := (List.range k).map fun i => tabOf a s!"f{i}"
+  match fs with
+  | [] => "err value"
+  | t0 :: rest =>
+    let t := (Tab.tensorList t0 rest).norm
+    s!"ok {showTab t} valid={b01 t.isSymplectic}"
+
+/-- `trace_out_qubits(positions)`: `pos=` list of positions, `os=` outcome bits -/
+def traceOut (a : Args) : String :=
+  let t := tabOf a
+  let pos := natsOf '.' (get a "pos")
+  let os := (get a "os").toList.map (fun c => decide (c = '1'))
+  match t.traceOutQubits pos os with
+  | .ok t' => let t' := t'.norm; s!"ok {showTab t'} valid={b01 t'.isSymplectic}"
+  | .error e => s!"err {e}"
+
 def mk (a : Args) : String :=
   let n := getNat a "n"
   let t := match get a "kind" with
@@ -98,6 +136,8 @@ def dispatch (cmd : String) (a : Args) : Option String :=
   match cmd with
   | "tab.run" => some (run a)
   | "tab.tensor" => some (tensor a)
+  | "tab.tensorn" => some (tensorN a)
+  | "tab.traceout" => some (traceOut a)
   | "tab.mk" => some (mk a)
   | "tab.valid" => some (valid a)
   | _ => none
